@@ -152,14 +152,17 @@ fn bounded(g: Option<usize>, b: usize) -> Option<usize> {
 
 pub fn check(case: &Case, p: &mut Probe) -> Check {
     let m = &case.h;
-    let h = m.to_sparse();
+    // the matrix reaches the queries along one of six public construction paths
+    let path = ((m.ones.len() + 5 * m.rows + m.cols) % 6) as u8;
+    let h = m.to_sparse_by(path);
+    p.class_if(path != 0, "built-by-bulk-insertion-or-parsing");
     let g = Graph::from_mat(m);
     let (r, c) = (m.rows, m.cols);
     let girth = g.girth();
     let locals: Vec<Option<usize>> = (0..g.n()).map(|v| g.local_girth(v)).collect();
     // global girth
     let got = guarded(|| h.girth()).map_err(|e| Fail::new("panic", format!("girth() panicked: {e}")))?;
-    ensure!(got == girth, "girth", "girth() = {got:?}, the shortest cycle has length {girth:?}");
+    ensure!(got == girth, "girth", "girth() = {got:?}, the shortest cycle has length {girth:?} (matrix built by {})", Mat::construction_path_name(path));
     for &b in &BOUNDS {
         let got = guarded(|| h.girth_with_max(b)).map_err(|e| Fail::new("panic", format!("girth_with_max({b}) panicked: {e}")))?;
         ensure!(got == bounded(girth, b), "girth-bounded", "girth_with_max({b}) = {got:?}, girth is {girth:?}");
@@ -469,7 +472,7 @@ pub fn property() -> Property {
             }),
             Box::new(Sub {
                 name: "graphs",
-                rule: "Tanner graphs up to 10 x 10 (thorough 16 x 16) by class: random forests; a cycle of length 4..10 with pendant trees grown on row and column nodes; two cycles of different length (disjoint, or joined by an edge or through trees); theta graphs (cycle + chord path); dense random; complete bipartite block with pendants; forests plus 1-3 random extra edges; rows and columns relabelled at random. For every graph: every node as root, bounds 0..=22 and usize::MAX. Oracle: plain queue BFS distances; shortest cycle through v = min over edges (v,w) of 1 + dist in G-(v,w) from w to v; girth = min over nodes; bounded variants = that value if <= bound else None; afterwards a copy of the queried object is edited once (clear_row / clear_col / set_row to empty / remove / toggle) and girth, bounded girth, one local girth and one BFS are compared with the oracles of the edited matrix. Non-trivial = cyclic graph with a root that is off every shortest cycle or on no cycle; inner = (root, bound) evaluations",
+                rule: "Tanner graphs up to 10 x 10 (thorough 16 x 16) by class: random forests; a cycle of length 4..10 with pendant trees grown on row and column nodes; two cycles of different length (disjoint, or joined by an edge or through trees); theta graphs (cycle + chord path); dense random; complete bipartite block with pendants; forests plus 1-3 random extra edges; rows and columns relabelled at random; the matrix object is built along one of six public construction paths (single insertions, bulk insert_row / insert_col / set_row with a repeated index, parsing the own padded / unpadded alist text). For every graph: every node as root, bounds 0..=22 and usize::MAX. Oracle: plain queue BFS distances; shortest cycle through v = min over edges (v,w) of 1 + dist in G-(v,w) from w to v; girth = min over nodes; bounded variants = that value if <= bound else None; afterwards a copy of the queried object is edited once (clear_row / clear_col / set_row to empty / remove / toggle) and girth, bounded girth, one local girth and one BFS are compared with the oracles of the edited matrix. Non-trivial = cyclic graph with a root that is off every shortest cycle or on no cycle; inner = (root, bound) evaluations",
                 cases: |t| t.pick(200_000, 5_000_000),
                 strategy: |t| strategy(t.pick(10, 16)),
                 check,
